@@ -42,3 +42,24 @@ func zcat(parts ...[]byte) int {
 	}
 	return n
 }
+
+type zopt func(*int)
+
+func zapply(opts []zopt) int {
+	x := 1
+	for _, o := range opts {
+		o(&x)
+	}
+	return x
+}
+
+func zapplyclamp(opts []zopt) int {
+	x := 1
+	for _, o := range opts {
+		o(&x)
+	}
+	if x > 5 {
+		x = 5
+	}
+	return x
+}
